@@ -65,6 +65,9 @@ func step(w *world, tr *tracker, label string, hist []string, st *stepStats) (vi
 		}
 		st.foreignUpdates++
 		tr.foreign++
+		if kind == "owner-relabelled" {
+			tr.since = 0 // the owner may be shared by several PodGroups: every pod may legitimately be written again
+		}
 		// external change: pods of that group may legitimately be written again
 		for i, p := range sc.Pods {
 			if pv := before.pod(p.Name); pv != nil && pv.Group == g {
@@ -262,7 +265,7 @@ func tierBounds(tier string, sc *scenario) bounds {
 		}
 		return b
 	}
-	return bounds{depth: 6, maxStates: 20000, foreign: []string{"queue", "markUnschedulable", "schedulingBackoff", "nodepool", "nodepool-removed", "scheduler"}, maxTargets: 2}
+	return bounds{depth: 6, maxStates: 20000, foreign: []string{"queue", "markUnschedulable", "schedulingBackoff", "nodepool", "nodepool-removed", "scheduler", "owner-relabelled"}, maxTargets: 2}
 }
 
 func permutations(n int) [][]int {
@@ -299,6 +302,11 @@ type finalState struct {
 // diffFinal names the first field in which two all-reconciled stores differ (owned view always,
 // foreign-owned fields and pod assignment only between histories without foreign updates).
 func diffFinal(a, b *finalState) (field, detail string) {
+	if len(a.view.OwnerPrio) > 0 || len(b.view.OwnerPrio) > 0 {
+		// the workload itself was changed along one of the histories (owner relabelled): what the grouper
+		// has to derive differs, and a pod reconciled before the change legitimately left the old value
+		return "", ""
+	}
 	for i := range a.view.Pods {
 		pa, pb := a.view.Pods[i], b.view.Pods[i]
 		if pa.Group != pb.Group {
